@@ -62,9 +62,11 @@ def noise_free_params(maxlabel):
     return dp
 
 
-def run_case(cls, ops, labels, n, psi0):
+def run_case(cls, ops, labels, n, psi0, shots=1):
+    """noise-free gates are deterministic: the mean over any number of shots must be the ideal distribution too"""
     from quantum_gates._gates.gates import NoiseFreeGates
-    r = W.observe_run(cls, ops, n, gates=NoiseFreeGates(), psi0=psi0, device_param=noise_free_params(max(labels)), want_result=True)
+    r = W.observe_run(cls, ops, n, gates=NoiseFreeGates(), psi0=psi0, device_param=noise_free_params(max(labels)), want_result=True,
+                      shots=shots)
     if "err" in r:
         return f"valid circuit raised {r['err']}: {r.get('msg', '')}", r
     want = ideal_probs(ops, labels, psi0)
@@ -152,7 +154,8 @@ def main(ctx):
             cs.append((cls, ops, labels, n))
     for i, (cls, ops, labels, n) in enumerate(cs):
         psi0 = random_psi0(rng, n, entangled=(i % 3 == 2))
-        bad, r = run_case(cls, ops, labels, n, psi0)
+        shots = 1 + (i % 3)
+        bad, r = run_case(cls, ops, labels, n, psi0, shots=shots)
         ctx.count()
         if any(op[0] in ("cx", "ecr") for op in ops):
             nontrivial.add(core.sha([cls, ops]))
@@ -162,7 +165,7 @@ def main(ctx):
                 key = f"{op[0]}-{'rev' if op[1] > op[2] else 'fwd'}"
                 hist[key] = hist.get(key, 0) + 1
         if bad:
-            fails.append((cls, ops, labels, n, [complex(x) for x in psi0], bad))
+            fails.append((cls, ops, labels, n, [complex(x) for x in psi0], bad + (f" (mean of {shots} shots)" if shots > 1 else ""), shots))
     for _ in range(12 if ctx.thorough else 4):
         ops, bad = fix_counts_case(rng, rng.randint(1, 4)); ctx.count()
         if bad:
@@ -205,7 +208,8 @@ def main(ctx):
     ctx.assumptions += ["layered classes: qubit set {0..n-1}, adjacent pairs; nqubit = number of used qubits; psi0 factors in ascending qubit order",
                         "rounding: numeric oracle tolerance 1e-9"]
     seen = set()
-    for cls, ops, labels, n, psi0, bad in fails:
+    for cls, ops, labels, n, psi0, bad, *rest in fails:
+        shots = rest[0] if rest else 1
         sig = classify(bad)
         k = json.dumps(sig, sort_keys=True) + cls
         if k in seen:
@@ -213,7 +217,7 @@ def main(ctx):
         seen.add(k)
         sig = dict(sig, cls=cls)
         ctx.violation(sig, {"cls": cls, "ops": ops, "labels": labels, "nqubit": n,
-                            "psi0": [[z.real, z.imag] for z in psi0] if psi0 is not None else None, "failure": bad},
+                            "psi0": [[z.real, z.imag] for z in psi0] if psi0 is not None else None, "shots": shots, "failure": bad},
                       f"{cls} circuit {json.dumps(ops)[:300]}: {bad}")
     if not fails:
         broken = tie_broken or (None if lean.ok else f"Lean obligations fail: {list(lean.failed.items())[:3]}") or \
@@ -227,6 +231,6 @@ def replay(ctx, path):
     if not rp.get("labels"):
         print("replay without a single-run input:", json.dumps(rp)[:500]); return 1
     psi0 = np.array([complex(a, b) for a, b in rp["psi0"]])
-    bad, _ = run_case(rp["cls"], rp["ops"], rp["labels"], rp["nqubit"], psi0)
+    bad, _ = run_case(rp["cls"], rp["ops"], rp["labels"], rp["nqubit"], psi0, shots=rp.get("shots", 1))
     print(rp["cls"], rp["ops"]); print("oracle:", bad or "holds")
     return 1 if bad else 0
